@@ -44,6 +44,7 @@
 #include <algorithm>
 #include <array>
 #include <cstddef>
+#include <limits>
 #include <string>
 #include <type_traits>
 #include <utility>
@@ -275,7 +276,7 @@ void at_case(grid_t<N> &g, A3 const &s, A3 const &p)
   using pos = typename grid::pos;
   bool const inside = ref_inside(N, p, s);
   bool border = false;
-  for (std::size_t i = 0; i < N; ++i) border = border || p[i] + 1 >= s[i] || s[i] <= 1;
+  for (std::size_t i = 0; i < N; ++i) border = border || p[i] < 0 || p[i] >= s[i] - 1 || s[i] <= 1;
   count(border);
   pos const fp = mk<pos, N>(p);
   if (fg::in_range(g, fp) != inside) fail(inside ? "grid::in_range|inside-rejected" : "grid::in_range|outside-accepted", "in_range(size " + show(N, s) + ", " + show(N, p) + ") wrong");
@@ -319,6 +320,67 @@ Reg const r_at{
       with_n(n, [&](auto N) { auto g = coded_grid<N()>(s); at_case<N()>(g, s, p); });
     },
     [](Ints const &c) { std::size_t const n = dec_n(c); return size_describe("in_range/in_range_dim/at_optional", c) + " pos=" + show(n, dec3(c, 4, n, 0, 8)); }};
+
+// ------------------------------------------------------------------ section: at_optional / in_range with huge coordinates
+// components beyond the signed range and components whose product with the stride wraps to a small
+// flat offset (2^62 * 4, 2^63 * 2): an implementation that compares a flat offset, or compares in a
+// signed type, accepts them. Negative i64 stand for the size_type values 2^64 - k.
+i64 huge_component(i64 idx, i64 extent)
+{
+  switch (idx)
+  {
+  case 0: return 0;
+  case 1: return extent > 0 ? extent - 1 : 0;
+  case 2: return -1; // 2^64 - 1
+  case 3: return std::numeric_limits<i64>::min(); // 2^63
+  case 4: return std::numeric_limits<i64>::max(); // 2^63 - 1
+  case 5: return i64{1} << 62;
+  case 6: return i64{1} << 32;
+  default: return -extent - (extent == 0 ? 1 : 0); // 2^64 - extent
+  }
+}
+A3 huge_pos(std::size_t n, A3 const &s, A3 const &idx)
+{
+  A3 p{{0, 0, 0}};
+  for (std::size_t i = 0; i < n; ++i) p[i] = huge_component(idx[i], s[i]);
+  return p;
+}
+template <std::size_t N>
+void huge_case(grid_t<N> &g, A3 const &s, A3 const &idx)
+{
+  bool any = false;
+  for (std::size_t i = 0; i < N; ++i) any = any || idx[i] >= 2;
+  if (!any) { skip(); return; } // covered by at_optional_margin
+  at_case<N>(g, s, huge_pos(N, s, idx));
+}
+Reg const r_at_huge{
+    "at_optional_huge", Kind::exhaustive,
+    "a position with at least one component from {2^64-1, 2^63, 2^63-1, 2^62, 2^32, 2^64-extent}; non-trivial always (every such position is outside)",
+    [] {
+      for (std::size_t n = 1; n <= 3; ++n)
+        with_n(n, [&](auto N) {
+          for_cube(n, 0, 4, [&](A3 const &s) {
+            auto g = coded_grid<N()>(s);
+            for_cube(n, 0, 7, [&](A3 const &idx) {
+              cur({static_cast<i64>(n), s[0], s[1], s[2], idx[0], idx[1], idx[2]});
+              huge_case<N()>(g, s, idx);
+            });
+          });
+        });
+    },
+    [](Ints const &c) {
+      std::size_t const n = dec_n(c);
+      A3 const s = dec3(c, 1, n, 0, 6), idx = dec3(c, 4, n, 0, 7);
+      with_n(n, [&](auto N) { auto g = coded_grid<N()>(s); huge_case<N()>(g, s, idx); });
+    },
+    [](Ints const &c) {
+      std::size_t const n = dec_n(c);
+      A3 const s = dec3(c, 1, n, 0, 6);
+      A3 const p = huge_pos(n, s, dec3(c, 4, n, 0, 7));
+      std::string r = size_describe("in_range/in_range_dim/at_optional", c) + " pos=(";
+      for (std::size_t i = 0; i < n; ++i) r += (i ? "," : "") + std::to_string(static_cast<unsigned long long>(p[i]));
+      return r + ")";
+    }};
 
 // ------------------------------------------------------------------ section: full ranges, fill, map, apply
 template <std::size_t N>
